@@ -22,6 +22,8 @@ var Dict = []string{
 	"aa.ip6.arpa", "92.Ip6.ArPa", "a.ip6.arpa", "1.in-addr.arpa", "00.in-addr.arpa", "000.1.in-addr.arpa",
 	"xin-addr.arpa", "xip6.arpa", "4.3.2.1.İn-addr.arpa", "4.3.2.1.in-addr.arKa", "İp6.arpa",
 	"4.3.2.1.in-addr.arpa", "4.3.2.1.in-addr.arpa.", "4.3.2.1.IN-ADDR.ARPA", "256.3.2.1.in-addr.arpa",
+	"::ffff:4.3.2.1.in-addr.arpa", "::ffff:403:201.in-addr.arpa", "0:0:0:0:0:ffff:4.3.2.1.in-addr.arpa", "::1.in-addr.arpa", "::.in-addr.arpa",
+	"1.2.3.4.ip6.arpa", "::1.ip6.arpa", "4.3.2.1%eth0.in-addr.arpa", "04.3.2.1.in-addr.arpa", "4.3.2.1.in-addr.arpa.in-addr.arpa",
 	"1.0.0.0.0.0.0.0.0.0.0.0.0.0.0.0.0.0.0.0.0.0.0.0.0.0.0.0.0.0.0.0.ip6.arpa",
 	"1.0.0.0.0.0.0.0.0.0.0.0.0.0.0.0.0.0.0.0.0.0.0.0.0.0.0.0.0.0.0.0.0.ip6.arpa",
 	"example.com", "example.com.", "EXAMPLE.COM", "-a.com", "a-.com", "a..com", "_srv._tcp.example.com",
@@ -253,6 +255,23 @@ type ArpaCase struct {
 func Arpa() *rapid.Generator[string] { return arpa }
 
 var arpa = rapid.Custom(func(t *rapid.T) string {
+	if rapid.IntRange(0, 11).Draw(t, "iptext") == 0 {
+		// An address in ordinary text form (IPv4, IPv6, IPv4-mapped, zoned,
+		// near-misses) in front of a root: the decoders hand such text to
+		// general-purpose parsers.
+		var left string
+		switch rapid.IntRange(0, 3).Draw(t, "ipkind") {
+		case 0:
+			left = "::ffff:" + goodV4.Draw(t, "v4")
+		case 1:
+			left = ipv6Text.Draw(t, "v6")
+		case 2:
+			left = goodV4.Draw(t, "v4") + rapid.SampledFrom([]string{"", "%eth0", ".", ".5", ":53"}).Draw(t, "tail")
+		default:
+			left = ipText.Draw(t, "ip").S
+		}
+		return left + "." + arpaSuf.Draw(t, "suf")
+	}
 	var n int
 	switch rapid.IntRange(0, 3).Draw(t, "m") {
 	case 0:
